@@ -77,7 +77,7 @@ ASSUMPTIONS = ['numpy / numpy.ma reductions with keepdims=True and '
                'integer variables keep their dtype: results are cast like '
                'numpy assignment does (truncation)',
                'character variables are outside the domain']
-BUDGET = {'quick': dict(examples=6400, max_s=240),
+BUDGET = {'quick': dict(examples=9600, max_s=240),
           'thorough': dict(examples=50000, max_s=1100)}
 
 REDUCERS = ['mean', 'sum', 'min', 'max', 'std', 'var', 'prod']
